@@ -264,6 +264,10 @@ def ip6JumboPrep (l : IPv6) (fix jumbo : Bool) : Res IPv6 :=
         if ok then pure l else .err "Missing jumbo length hop-by-hop option"
   else pure l
 
+/-- `if ipv6.NextHeader != IPProtocolIPv6HopByHop { ipv6.NextHeader = IPProtocolIPv6HopByHop }` -/
+def ip6SetHbhNext (l : IPv6) : IPv6 :=
+  if l.nextHeader ≠ ipProtocolIPv6HopByHop then { l with nextHeader := ipProtocolIPv6HopByHop } else l
+
 /-- Second block: serialize the hop-by-hop header unless the buffer already holds one; returns the
     buffer, the layer and the payload length seen by the IPv6 header. -/
 def ip6HbhStep (l : IPv6) (b : SBuf) (fix jumbo : Bool) : Res (SBuf × IPv6 × Nat) :=
@@ -271,8 +275,7 @@ def ip6HbhStep (l : IPv6) (b : SBuf) (fix jumbo : Bool) : Res (SBuf × IPv6 × N
   | some h =>
     if b.layers.contains layerTypeIPv6HopByHop then pure (b, l, (contents b).length)
     else do
-      let l : IPv6 := if l.nextHeader ≠ ipProtocolIPv6HopByHop then
-                        { l with nextHeader := ipProtocolIPv6HopByHop } else l
+      let l : IPv6 := ip6SetHbhNext l
       let (b, h') ← serializeTlvExt h b fix
       let l : IPv6 := { l with hopByHop := some h' }
       let payload := contents b
